@@ -326,7 +326,34 @@ func remoteQuery(r *side, src, format string, ctrl bool) ([]string, int, error) 
 		recordFrames(body)
 	}
 	vals, err := decodeResponse(format, body)
+	if err == nil {
+		// errors that cannot travel in-band are reported on the query status endpoint
+		if id := resp.Header.Get(api.RequestIDHeader); id != "" {
+			if serr := queryStatus(r, id); serr != nil {
+				err = serr
+			}
+		}
+	}
 	return vals, resp.StatusCode, err
+}
+
+// queryStatus asks GET /query/status/{id} for a late error of that query.
+func queryStatus(r *side, id string) error {
+	req := r.conn.NewRequest(context.Background(), "GET", "/query/status/"+id, nil)
+	req.Header.Set("Accept", api.MediaTypeJSON)
+	resp, err := r.conn.Do(req)
+	if err != nil {
+		return nil // status no longer available: nothing reported there
+	}
+	defer resp.Body.Close()
+	b, _ := io.ReadAll(resp.Body)
+	var qe struct {
+		Error string `json:"error"`
+	}
+	if json.Unmarshal(b, &qe) == nil && qe.Error != "" {
+		return errors.New("query status: " + qe.Error)
+	}
+	return nil
 }
 
 // decodeResponse reads a response body; for zng an in-band QueryError is an
@@ -631,7 +658,7 @@ func errorsSurface(res *Result, work string) error {
 				res.Distinctly(fmt.Sprintf("late:%s:%v", f, ctrl))
 				if errR == nil {
 					res.Fail(Failure{Kind: "oracle", Sig: fmt.Sprintf("C19:late-query-error-dropped:%s:ctrl=%v", f, ctrl),
-						Detail:   fmt.Sprintf("a query fails while streaming (direct access: %v); the service answers status %d in %s (ctrl=%v) with a shorter, well-formed stream and no error", errL, status, f, ctrl),
+						Detail:   fmt.Sprintf("a query fails while streaming (direct access: %v); the service answers status %d in %s (ctrl=%v) with a shorter, well-formed stream, no in-band error and nothing on the query status endpoint", errL, status, f, ctrl),
 						Replay:   map[string]any{"format": f, "ctrl": ctrl, "corrupted": "last data object truncated by 3 bytes", "query": "from p"},
 						Expected: "error reported to the client", Observed: "no error"})
 				}
